@@ -276,6 +276,40 @@ pub fn gen_c18(out: &mut Out, rng: &mut Rng, thorough: bool) {
     }
 }
 
+/// the serial RTU server (src/server/rtu.rs) on a pseudo-terminal: pipelined typed requests of
+/// every variant, answered / declined / failing, written to the line in small pieces
+pub fn gen_serial_server(out: &mut Out, rng: &mut Rng, n: usize) {
+    for _ in 0..n {
+        let nreq = rng.range(1, 8);
+        let mut data = vec![];
+        let mut svc = vec![];
+        for q in 0..nreq {
+            let req = loop {
+                let hint = rng.range(0, 6);
+                let r = gen_request(rng, Some(hint));
+                if !matches!(r, Request::Custom(..)) {
+                    break r;
+                }
+            };
+            let unit = rng.u8();
+            data.extend(frame("ser", 0, unit, &spec::request_bytes(&req).unwrap()));
+            svc.push(match rng.below(6) {
+                0 => Svc::Decline,
+                1 => Svc::Exception(tokio_modbus::ExceptionCode::new(1 + (q % 4) as u8)),
+                _ => Svc::Reply(answer_for(rng, &req)),
+            });
+        }
+        monitor_line(
+            out,
+            &format!(
+                "conc ser | svc={} r=d{}",
+                svc.iter().map(Svc::tok).collect::<Vec<_>>().join(","),
+                hex_raw(&data)
+            ),
+        );
+    }
+}
+
 pub fn mon_c18(out: &mut Out, l: &str, r: &str) {
     if !l.starts_with("conc ") {
         return;
